@@ -128,6 +128,23 @@ class _BreakRewriter(ast.NodeTransformer):
         return [ast.Assign(targets=[_name(self.flag, ast.Store())], value=_const(True)), ast.Break()]
 
 
+class _IfExpMerge(ast.NodeTransformer):
+    """inside comprehension elements: `a if c else b` -> _vfw.ite_elt(c, lambda: a, lambda: b) (value-level merge for symbolic c)"""
+
+    def visit_IfExp(self, n):
+        self.generic_visit(n)
+        z = lambda: ast.arguments(posonlyargs=[], args=[], kwonlyargs=[], kw_defaults=[], defaults=[])
+        return _call("ite_elt", n.test, ast.Lambda(args=z(), body=n.body), ast.Lambda(args=z(), body=n.orelse))
+
+    def visit_Lambda(self, n):
+        return n
+
+    def visit_ListComp(self, n):
+        return n
+
+    visit_GeneratorExp = visit_SetComp = visit_DictComp = visit_ListComp
+
+
 class FunctionTransformer(ast.NodeTransformer):
     def __init__(self, loops: Optional[Dict[str, dict]] = None, ghost: Optional[Dict[str, str]] = None, fname=""):
         self.loops = loops or {}
@@ -202,7 +219,27 @@ class FunctionTransformer(ast.NodeTransformer):
         if isinstance(n.func, ast.Name) and n.func.id == "zip" and len(n.args) == 1 and isinstance(n.args[0], ast.Starred) \
                 and not n.keywords:
             return _call("zip_star", n.args[0].value)
+        stars = [i for i, a in enumerate(n.args) if isinstance(a, ast.Starred)]
+        if len(stars) == 1 and not any(k.arg is None for k in n.keywords):
+            i = stars[0]
+            return _call("star_call", n.func, ast.List(elts=n.args[:i], ctx=ast.Load()), n.args[i].value,
+                         ast.List(elts=n.args[i + 1:], ctx=ast.Load()),
+                         ast.Dict(keys=[_const(k.arg) for k in n.keywords], values=[k.value for k in n.keywords]))
         return n
+
+    def _display(self, n, kind):
+        self.generic_visit(n)
+        if not isinstance(n.ctx, ast.Load) or not any(isinstance(e, ast.Starred) for e in n.elts):
+            return n
+        parts = [ast.Tuple(elts=[_const("s" if isinstance(e, ast.Starred) else "v"), e.value if isinstance(e, ast.Starred) else e], ctx=ast.Load())
+                 for e in n.elts]
+        return _call("display", _const(kind), ast.List(elts=parts, ctx=ast.Load()))
+
+    def visit_List(self, n):
+        return self._display(n, "list")
+
+    def visit_Tuple(self, n):
+        return self._display(n, "tuple")
 
     # ---------------------------------------------------------------- comprehensions
     def _comp(self, node, kind, elt):
@@ -226,6 +263,7 @@ class FunctionTransformer(ast.NodeTransformer):
             return [ast.Assign(targets=[copy.deepcopy(targets[i])], value=_name(argn[i])) for i in range(k)]
 
         def mkdef(name, nargs, value):
+            value = _IfExpMerge().visit(copy.deepcopy(value))
             value = self.visit(value)  # nested comprehensions inside
             body = unpack(nargs) + [ast.Return(value=value)]
             return ast.FunctionDef(name=name, args=ast.arguments(posonlyargs=[], args=[ast.arg(arg=a) for a in argn[:nargs]],
